@@ -2445,7 +2445,7 @@ Note that if the receiver is in an invalid state, or has a zero length,
 nothing will be removed.
 */
 func (r Stack) Pop() (popped any, ok bool) {
-	if !r.IsEmpty() {
+	if r.IsInit() {
 		if !r.getState(ronly) {
 			popped, ok = r.stack.pop()
 		}
@@ -2529,7 +2529,7 @@ Reverse shall re-order the receiver's current slices in a sequence that is the p
 of the original.
 */
 func (r Stack) Reverse() Stack {
-	if !r.IsEmpty() {
+	if r.IsInit() {
 		if !r.getState(ronly) {
 			r.stack.reverse()
 		}
